@@ -16,16 +16,39 @@ import (
 
 var tokenChainNames = []string{"chainaaaa", "chainbbbb", "chaincccc", "chaindddd"}
 
+// lookalikeChainNames are chain names that are suffixes / prefixes of one another, so that
+// any path arithmetic done with string prefix, suffix or substring tests instead of whole
+// path elements goes wrong.
+var lookalikeChainNames = []string{"irishub-mainnet", "hub-mainnet", "sub-irishub-mainnet", "hub-mainnet.x"}
+
+// tokenNamesOverride, when set, replaces tokenChainNames for the run in progress.
+var tokenNamesOverride []string
+
+// withLookalikeChains runs a scenario in a world whose chains carry lookalikeChainNames.
+func withLookalikeChains(run func(c *core.Ctx)) func(c *core.Ctx) {
+	return func(c *core.Ctx) {
+		tokenNamesOverride = lookalikeChainNames
+		defer func() { tokenNamesOverride = nil }()
+		run(c)
+	}
+}
+
 func init() {
 	register(&core.Profile{Name: "c04-nft-conservation", Property: "C04", Weight: 3, Run: func(c *core.Ctx) { runC04(c, false) },
 		Doc: "2-4 chains, direct and relayed routes; users issue classes from an adversarial set (names that look like voucher paths, contain '/', start with the path prefix), mint, transfer locally, send across chains to users of other chains, send vouchers onward and back, burn; honest relayer with reordering, duplication and error acks; NftModel identities checked after every tx"})
+	register(&core.Profile{Name: "c04-lookalike-chains", Property: "C04", Weight: 1, Run: withLookalikeChains(func(c *core.Ctx) { runC04(c, false) }),
+		Doc: "c04-nft-conservation in a world whose chain names are suffixes / prefixes of one another (irishub-mainnet, hub-mainnet, sub-irishub-mainnet, hub-mainnet.x)"})
 	register(&core.Profile{Name: "c04-nft-conservation-crash", Property: "C04", Weight: 1, Fault: true, Run: func(c *core.Ctx) { runC04(c, true) },
 		Doc: "same with crash/restart between steps"})
 }
 
 // buildTokenWorld is buildTraffic with chain names that may appear inside NFT class names.
 func buildTokenWorld(c *core.Ctx, nChains int) (*world.World, *scen.Engine) {
-	w, err := world.NewWorld(c.Ch, world.WorldConfig{ChainNames: tokenChainNames[:nChains]})
+	names := tokenChainNames
+	if tokenNamesOverride != nil {
+		names = tokenNamesOverride
+	}
+	w, err := world.NewWorld(c.Ch, world.WorldConfig{ChainNames: names[:nChains]})
 	c.Check(err)
 	c.W = w
 	c.Check(w.ConnectAll(world.DefaultClientParams()))
